@@ -163,6 +163,9 @@ func c09ShedRun(r *zsim.Run) {
 		admitted++
 		low++
 		d := lat + time.Duration(o.Intn(5))*time.Millisecond
+		if lat < time.Millisecond {
+			d = lat
+		}
 		zsim.Sleep(d)
 		low--
 		if high-1 > maxAtCompletion {
@@ -237,6 +240,9 @@ func c09ShedRun(r *zsim.Run) {
 		c := c
 		n := 4 + o.Intn(20)
 		lat := time.Duration(zsim.Pick(o, 2, 1, 10, 40, 150)) * time.Millisecond
+		if o.Intn(5) == 0 {
+			lat = time.Duration(zsim.Pick(o, 300, 100, 700)) * time.Microsecond // faster than a millisecond
+		}
 		failOdds := zsim.Pick(o, 5, 5, 2, 1, 1000)
 		r.Go(fmt.Sprintf("caller%d", c), func() {
 			defer func() { done++ }()
